@@ -128,6 +128,35 @@ where
     None
 }
 
+/// Two corrupted copies of `m` whose final group element (the KZG witness) is shifted by +D and
+/// −D: each is invalid on its own, and their errors cancel in any combination that gives both the
+/// same weight.
+fn cancelling_pair<H>(m: &Member, rng: &mut ChaCha8Rng) -> Option<(Member, Member)>
+where
+    H: TranscriptHash,
+    G1Projective: Hashable<H>,
+    Fq: Hashable<H> + Sampleable<H>,
+{
+    use group::{Group, GroupEncoding};
+    let n = m.proof.len();
+    if n < 48 {
+        return None;
+    }
+    let mut repr = <G1Projective as GroupEncoding>::Repr::default();
+    repr.as_mut().copy_from_slice(&m.proof[n - 48..]);
+    let pi: Option<G1Projective> = G1Projective::from_bytes(&repr).into();
+    let pi = pi?;
+    let d = G1Projective::random(&mut *rng);
+    let mk = |p: G1Projective, tag: &str| {
+        let mut m2 = m.clone();
+        m2.proof[n - 48..].copy_from_slice(GroupEncoding::to_bytes(&p).as_ref());
+        m2.label = format!("{}!{tag}", m.label);
+        m2
+    };
+    let (a, b) = (mk(pi + d, "pi+D"), mk(pi - d, "pi-D"));
+    (!single::<H>(&a) && !single::<H>(&b)).then_some((a, b))
+}
+
 fn batch<H>(ms: &[Member]) -> Result<bool, PanicInfo>
 where
     H: TranscriptHash,
@@ -238,6 +267,26 @@ where
                 judge(&ms, false, "two invalid members", rep);
             }
         }
+    }
+    // cancelling pairs: the same proof with its last point shifted by +D and -D at every pair of
+    // positions (defeats any combination that gives two members the same weight)
+    if let Some((plus, minus)) = cancelling_pair::<H>(&valid[0], &mut rng) {
+        for size in 2..=4usize {
+            for i in 0..size {
+                for j in 0..size {
+                    if i == j {
+                        continue;
+                    }
+                    let mut ms: Vec<Member> = (0..size).map(|_| valid.choose(&mut rng).unwrap().clone()).collect();
+                    ms[i] = plus.clone();
+                    ms[j] = minus.clone();
+                    judge(&ms, false, &format!("cancelling pair (pi+D at {i}, pi-D at {j})"), rep);
+                }
+            }
+        }
+        rep.count(&format!("{hname}.cancelling_pairs_tested"));
+    } else {
+        rep.inconclusive(&format!("{hname}: no cancelling pair could be built"));
     }
     // all permutations of a 3-batch (4 in thorough) containing one invalid member
     let psize = ctx.tier.pick(3, 4);
